@@ -1,7 +1,1348 @@
-//! Lane `streams` (stub).
-use crate::out::Out;
+//! Lane `streams` (C10): the REAL `SearchStream` / `Ldap::search` over the scripted transport,
+//! against a scripted server which answers every SearchRequest the client writes with the next
+//! page script.  M lines: `stream.run …` / `search.run …` (Model.Stream) vs the real outputs;
+//! R lines: the clauses of C10 evaluated in Rust on what the server sent (a reference cursor
+//! written from the property text, independent of the Lean model).
+//! The scenario machinery (scripts, server, canonical texts) is shared with lane `paged`.
+use crate::fmtx::*;
+use crate::gen::int_octets;
+use crate::lanes::ber::real_encode;
+use crate::out::{guarded, Out};
 use crate::rng::Rng;
+use crate::simnet::{self, Net};
+use ldap3::adapters::{Adapter, EntriesOnly, PagedResults};
+use ldap3::controls::{Control, ControlType, RawControl};
+use ldap3::verif::verif_take_trace;
+use ldap3::{DerefAliases, Ldap, LdapConnAsync, LdapError, LdapResult, ResultEntry, Scope, SearchOptions, SearchStream, StreamState};
+use lber::parse::parse_tag;
+use lber::structure::{StructureTag, PL};
+use std::cell::RefCell;
+use std::collections::VecDeque;
+use std::future::Future;
+use std::rc::Rc;
+use std::time::Duration;
 
-pub fn run(_thorough: bool, _rng: Rng, out: Out) {
-    out.finish("stub lane: nothing generated yet");
+pub const PR_OID: &str = "1.2.840.113556.1.4.319";
+pub const OTHER_OID_PREFIX: &str = "1.3.6.1.4.1.55555.";
+/// per-`next()` time-out of a stream that has one (virtual ms)
+pub const STREAM_TMO_MS: u64 = 1000;
+
+#[derive(Clone, Debug, PartialEq)]
+pub enum K {
+    E,
+    R,
+    I,
+}
+
+#[derive(Clone, Debug, PartialEq)]
+pub struct RespCtl {
+    pub paged: bool,
+    /// None = the paging control carries no value
+    pub cookie: Option<Vec<u8>>,
+    pub tok: u64,
+}
+
+#[derive(Clone, Debug, PartialEq)]
+pub struct Item {
+    pub k: K,
+    pub tok: u64,
+    /// None = malformed reference (a constructed element where a URI belongs)
+    pub uris: Option<Vec<Vec<u8>>>,
+    pub ctls: Vec<RespCtl>,
+}
+
+#[derive(Clone, Debug, PartialEq)]
+pub struct Done {
+    pub rc: u32,
+    pub refs: Vec<Vec<u8>>,
+    pub ctls: Vec<RespCtl>,
+    pub tok: u64,
+}
+
+#[derive(Clone, Debug, PartialEq)]
+pub enum Recv {
+    Item(Item),
+    Done(Done),
+    /// the server closes the connection
+    Closed,
+    /// the server stays silent and the stream's time-out fires
+    Timeout,
+}
+
+#[derive(Clone, Debug, PartialEq)]
+pub enum Page {
+    Script(Vec<Recv>),
+    /// the search cannot be submitted: the connection is already gone
+    Fail,
+}
+
+#[derive(Clone, Debug, PartialEq)]
+pub enum A {
+    E,
+    P(i32),
+}
+
+#[derive(Clone, Debug, PartialEq)]
+pub enum ReqCtl {
+    Paged(i32, Vec<u8>),
+    Other(u64),
+}
+
+#[derive(Clone, Debug, Default)]
+pub struct Handle {
+    pub ctrls: Option<Vec<ReqCtl>>,
+    pub tmo: bool,
+    /// SearchOptions as one number ≥ 1: ((sizelimit * 100000 + timelimit) * 4 + deref) * 2 + typesonly
+    pub opts: Option<u64>,
+}
+
+#[derive(Clone, Copy, Debug, PartialEq)]
+pub enum Call {
+    Next,
+    Finish,
+    State,
+    Start,
+}
+
+#[derive(Clone, Debug)]
+pub struct Scenario {
+    pub chain: Vec<A>,
+    pub handle: Handle,
+    pub qtok: u64,
+    pub filter_ok: bool,
+    pub pages: Vec<Page>,
+    pub calls: Vec<Call>,
+}
+
+/* ---------- canonical texts (shared with Driver/Stream.lean) ---------- */
+
+fn list(xs: Vec<String>) -> String {
+    format!("[{}]", xs.join(","))
+}
+
+pub fn ctl_text(c: &RespCtl) -> String {
+    if c.paged {
+        format!("g{}:{}", c.tok, match &c.cookie { Some(b) => hex(b), None => String::from("x") })
+    } else {
+        format!("c{}", c.tok)
+    }
+}
+
+pub fn ctls_text(cs: &[RespCtl]) -> String {
+    list(cs.iter().map(ctl_text).collect())
+}
+
+pub fn hexlist(xs: &[Vec<u8>]) -> String {
+    list(xs.iter().map(|b| hex(b)).collect())
+}
+
+pub fn recv_text(r: &Recv) -> String {
+    match r {
+        Recv::Closed => String::from("C"),
+        Recv::Timeout => String::from("T"),
+        Recv::Done(d) => format!("D{}/{}/{}/{}", d.rc, hexlist(&d.refs), ctls_text(&d.ctls), d.tok),
+        Recv::Item(i) => format!(
+            "{}{}/{}/{}",
+            match i.k { K::E => "e", K::R => "r", K::I => "i" },
+            i.tok,
+            match &i.uris { Some(u) => hexlist(u), None => String::from("x") },
+            ctls_text(&i.ctls)
+        ),
+    }
+}
+
+pub fn pages_text(ps: &[Page]) -> String {
+    ps.iter()
+        .map(|p| match p {
+            Page::Fail => String::from("F"),
+            Page::Script(l) => {
+                let mut s = String::from("P");
+                for r in l {
+                    s.push(' ');
+                    s.push_str(&recv_text(r));
+                }
+                s
+            }
+        })
+        .collect::<Vec<_>>()
+        .join(" ")
+}
+
+pub fn chain_text(c: &[A]) -> String {
+    if c.is_empty() {
+        return String::from("d");
+    }
+    c.iter().map(|a| match a { A::E => String::from("e"), A::P(n) => format!("p{}", n) }).collect::<Vec<_>>().join(",")
+}
+
+pub fn rctl_text(c: &ReqCtl) -> String {
+    match c {
+        ReqCtl::Other(t) => format!("o{}", t),
+        ReqCtl::Paged(sz, ck) => format!("p{}:{}", sz, hex(ck)),
+    }
+}
+
+pub fn handle_text(h: &Handle) -> String {
+    format!(
+        "c={}/t={}/o={}",
+        match &h.ctrls { None => String::from("none"), Some(cs) => list(cs.iter().map(rctl_text).collect()) },
+        if h.tmo { STREAM_TMO_MS.to_string() } else { String::from("-") },
+        match h.opts { Some(o) => o.to_string(), None => String::from("-") }
+    )
+}
+
+pub fn calls_text(cs: &[Call]) -> String {
+    cs.iter().map(|c| match c { Call::Next => "n", Call::Finish => "f", Call::State => "s", Call::Start => "S" }).collect::<Vec<_>>().join(" ")
+}
+
+pub fn scenario_request(sc: &Scenario, obs: &str) -> String {
+    format!(
+        "stream.run {} {} {} q{}:{} {} | {}",
+        obs,
+        chain_text(&sc.chain),
+        handle_text(&sc.handle),
+        sc.qtok,
+        if sc.filter_ok { 1 } else { 0 },
+        pages_text(&sc.pages),
+        calls_text(&sc.calls)
+    )
+}
+
+/* ---------- wire forms ---------- */
+
+pub fn pr_value(size: i64, cookie: &[u8]) -> Vec<u8> {
+    real_encode(&cons(0, 16, vec![prim(0, 2, int_octets(size)), prim(0, 4, cookie.to_vec())]))
+}
+
+fn resp_ctl_tree(c: &RespCtl) -> StructureTag {
+    if c.paged {
+        let mut ks = vec![prim(0, 4, PR_OID.as_bytes().to_vec())];
+        if let Some(ck) = &c.cookie {
+            ks.push(prim(0, 4, pr_value(c.tok as i64, ck)));
+        }
+        cons(0, 16, ks)
+    } else {
+        cons(0, 16, vec![prim(0, 4, format!("{}{}", OTHER_OID_PREFIX, c.tok).into_bytes())])
+    }
+}
+
+fn envelope(id: i64, op: StructureTag, ctls: &[RespCtl]) -> Vec<u8> {
+    let mut ks = vec![prim(0, 2, int_octets(id)), op];
+    if !ctls.is_empty() {
+        ks.push(cons(2, 0, ctls.iter().map(resp_ctl_tree).collect()));
+    }
+    real_encode(&cons(0, 16, ks))
+}
+
+pub fn item_op(i: &Item) -> StructureTag {
+    let tokb = format!("tok{}", i.tok).into_bytes();
+    match i.k {
+        K::E => cons(1, 4, vec![prim(0, 4, tokb), cons(0, 16, vec![])]),
+        K::I => cons(1, 25, vec![prim(2, 1, tokb)]),
+        K::R => match &i.uris {
+            Some(us) => cons(1, 19, us.iter().map(|u| prim(0, 4, u.clone())).collect()),
+            None => cons(1, 19, vec![cons(0, 16, vec![prim(0, 4, tokb)])]),
+        },
+    }
+}
+
+pub fn done_op(d: &Done) -> StructureTag {
+    let mut ks = vec![prim(0, 10, int_octets(d.rc as i64)), prim(0, 4, vec![]), prim(0, 4, format!("tok{}", d.tok).into_bytes())];
+    if !d.refs.is_empty() {
+        ks.push(cons(2, 3, d.refs.iter().map(|u| prim(0, 4, u.clone())).collect()));
+    }
+    cons(1, 5, ks)
+}
+
+/// the URI list of a well-formed reference item: the first one carries the token
+pub fn ref_uris(tok: u64, extra: usize) -> Vec<Vec<u8>> {
+    let mut v = vec![format!("ldap://tok{}/", tok).into_bytes()];
+    for j in 0..extra {
+        v.push(format!("ldap://h{}/dc=x", j).into_bytes());
+    }
+    v
+}
+
+/* ---------- reading the client's answers ---------- */
+
+fn find_tok(t: &StructureTag) -> Option<u64> {
+    match &t.payload {
+        PL::P(b) => {
+            let s = String::from_utf8_lossy(b);
+            let i = s.find("tok")?;
+            let digits: String = s[i + 3..].chars().take_while(|c| c.is_ascii_digit()).collect();
+            digits.parse().ok()
+        }
+        PL::C(ks) => ks.iter().find_map(find_tok),
+    }
+}
+
+fn twos(b: &[u8]) -> i64 {
+    let mut v: i64 = if !b.is_empty() && b[0] & 0x80 != 0 { -1 } else { 0 };
+    for x in b {
+        v = (v << 8) | *x as i64;
+    }
+    v
+}
+
+/// (size, cookie) of a paged-results control value
+pub fn parse_pr(val: &[u8]) -> Option<(i64, Vec<u8>)> {
+    let (_, t) = parse_tag(val).ok()?;
+    match t.payload {
+        PL::C(ks) if ks.len() == 2 => match (&ks[0].payload, &ks[1].payload) {
+            (PL::P(a), PL::P(b)) => Some((twos(a), b.clone())),
+            _ => None,
+        },
+        _ => None,
+    }
+}
+
+pub fn client_ctl_text(c: &Control) -> String {
+    let Control(ct, raw) = c;
+    if matches!(ct, Some(ControlType::PagedResults)) {
+        match raw.val.as_ref().and_then(|v| parse_pr(v)) {
+            Some((sz, ck)) => format!("g{}:{}", sz, hex(&ck)),
+            None => String::from("g0:x"),
+        }
+    } else {
+        format!("c{}", raw.ctype.strip_prefix(OTHER_OID_PREFIX).unwrap_or("?"))
+    }
+}
+
+pub fn client_ctls_text(cs: &[Control]) -> String {
+    list(cs.iter().map(client_ctl_text).collect())
+}
+
+pub fn client_item_text(re: &ResultEntry) -> String {
+    let k = match re.0.id { 4 => "e", 19 => "r", 25 => "i", _ => "?" };
+    format!("{}{}/{}", k, find_tok(&re.0).unwrap_or(0), client_ctls_text(&re.1))
+}
+
+pub fn client_res_text(r: &LdapResult) -> String {
+    let text = if let Some(n) = r.text.strip_prefix("tok") {
+        format!("t{}", n)
+    } else if r.text == "user cancelled" {
+        String::from("cancelled")
+    } else if r.text == "stream already finalized" {
+        String::from("finalized")
+    } else {
+        format!("?{}", r.text.replace(' ', "_"))
+    };
+    let refs: Vec<Vec<u8>> = r.refs.iter().map(|s| s.as_bytes().to_vec()).collect();
+    format!("{}/{}/{}/{}", r.rc, hexlist(&refs), client_ctls_text(&r.ctrls), text)
+}
+
+pub fn err_word(e: &LdapError) -> String {
+    match e {
+        LdapError::EndOfStream => String::from("eos"),
+        LdapError::Timeout { .. } => String::from("timeout"),
+        LdapError::AdapterInit(_) => String::from("init"),
+        LdapError::FilterParsing => String::from("filter"),
+        LdapError::OpSend { .. } | LdapError::ResultRecv { .. } => String::from("op"),
+        other => format!("other:{}", other).replace(' ', "_"),
+    }
+}
+
+pub fn state_word(s: StreamState) -> &'static str {
+    match s {
+        StreamState::Fresh => "fresh",
+        StreamState::Active => "active",
+        StreamState::Done => "done",
+        StreamState::Closed => "closed",
+        StreamState::Error => "error",
+    }
+}
+
+/* ---------- the scripted server ---------- */
+
+#[derive(Clone, Debug)]
+pub struct WireReq {
+    pub id: i64,
+    /// the protocolOp TLV as written
+    pub op: Vec<u8>,
+    /// canonical text `[ctls]/o<opts>/q<tok>`
+    pub text: String,
+    pub ctls: Option<Vec<ReqCtl>>,
+    /// the decoded request fields (everything but the controls)
+    pub fields: String,
+}
+
+#[derive(Default, Debug)]
+pub struct Obs {
+    pub outputs: Vec<String>,
+    pub reqs: Vec<WireReq>,
+    pub abandons: Vec<i64>,
+    pub other_msgs: Vec<String>,
+    pub closed_by_server: bool,
+    pub in_use: Vec<i32>,
+    pub last_maps: String,
+    pub scrubs: Vec<i64>,
+    pub driver_alive: bool,
+    pub panicked: Option<String>,
+    /// free-form notes of the scenario code (last_id readings …)
+    pub notes: Vec<(String, String)>,
+}
+
+pub struct Server {
+    pub net: Net,
+    pub pages: VecDeque<Page>,
+    buf: Vec<u8>,
+    pub obs: Rc<RefCell<Obs>>,
+}
+
+fn child<'a>(t: &'a StructureTag, i: usize) -> Option<&'a StructureTag> {
+    match &t.payload {
+        PL::C(ks) => ks.get(i),
+        _ => None,
+    }
+}
+
+fn bytes_of(t: &StructureTag) -> Option<&Vec<u8>> {
+    match &t.payload {
+        PL::P(b) => Some(b),
+        _ => None,
+    }
+}
+
+fn decode_req_ctl(t: &StructureTag) -> Option<ReqCtl> {
+    let oid = String::from_utf8(bytes_of(child(t, 0)?)?.clone()).ok()?;
+    if oid == PR_OID {
+        // value = last child (criticality may sit in between)
+        let n = match &t.payload { PL::C(ks) => ks.len(), _ => 0 };
+        let (sz, ck) = parse_pr(bytes_of(child(t, n - 1)?)?)?;
+        Some(ReqCtl::Paged(sz as i32, ck))
+    } else {
+        Some(ReqCtl::Other(oid.strip_prefix(OTHER_OID_PREFIX)?.parse().ok()?))
+    }
+}
+
+pub fn opts_token(deref: u64, typesonly: bool, sizelimit: u64, timelimit: u64) -> u64 {
+    ((sizelimit * 100000 + timelimit) * 4 + deref) * 2 + typesonly as u64
+}
+
+/// `<tok>` / `-` (all defaults) / `?` from the fields of a SearchRequest
+fn decode_opts(op: &StructureTag) -> String {
+    let f = |i: usize| child(op, i).and_then(bytes_of).map(|b| twos(b));
+    match (f(2), f(3), f(4), f(5)) {
+        (Some(deref), Some(size), Some(time), Some(types)) => {
+            if deref == 0 && size == 0 && time == 0 && types == 0 {
+                String::from("-")
+            } else if (0..4).contains(&deref) && size >= 0 && (0..100000).contains(&time) {
+                opts_token(deref as u64, types != 0, size as u64, time as u64).to_string()
+            } else {
+                String::from("?")
+            }
+        }
+        _ => String::from("?"),
+    }
+}
+
+/// every field of the SearchRequest but the controls, decoded: base, scope, deref, sizeLimit,
+/// timeLimit, typesOnly, filter (as a tree), attributes
+fn decode_fields(op: &StructureTag) -> String {
+    let b = |i: usize| child(op, i).and_then(bytes_of);
+    let n = |i: usize| b(i).map(|x| twos(x).to_string()).unwrap_or_else(|| String::from("?"));
+    let attrs = match child(op, 7).map(|t| &t.payload) {
+        Some(PL::C(ks)) => ks.iter().map(|k| bytes_of(k).map(|x| String::from_utf8_lossy(x).to_string()).unwrap_or_else(|| String::from("?"))).collect::<Vec<_>>().join(","),
+        _ => String::from("?"),
+    };
+    format!(
+        "base={} scope={} deref={} sizeLimit={} timeLimit={} typesOnly={} filter={} attrs=[{}]",
+        b(0).map(|x| String::from_utf8_lossy(x).to_string()).unwrap_or_else(|| String::from("?")),
+        n(1),
+        n(2),
+        n(3),
+        n(4),
+        n(5),
+        child(op, 6).map(tlv).unwrap_or_else(|| String::from("?")),
+        attrs
+    )
+}
+
+impl Server {
+    pub fn new(net: Net, pages: &[Page], obs: Rc<RefCell<Obs>>) -> Server {
+        // `Fail` pages are never seen by the server: the client cannot submit them
+        Server { net, pages: pages.iter().filter(|p| **p != Page::Fail).cloned().collect(), buf: vec![], obs }
+    }
+
+    /// read what the client has written; answer every SearchRequest with the next page script
+    pub fn serve(&mut self) {
+        let w = self.net.take_written();
+        if w.is_empty() {
+            return;
+        }
+        self.buf.extend(w);
+        loop {
+            let (used, t) = match parse_tag(&self.buf) {
+                Ok((rest, t)) => (self.buf.len() - rest.len(), t),
+                Err(_) => break,
+            };
+            self.buf.drain(..used);
+            self.message(&t);
+        }
+    }
+
+    fn message(&mut self, t: &StructureTag) {
+        let id = child(t, 0).and_then(bytes_of).map(|b| twos(b)).unwrap_or(-1);
+        let Some(op) = child(t, 1) else { return };
+        match op.id {
+            3 => {
+                let ctls: Option<Vec<ReqCtl>> = child(t, 2).and_then(|c| match &c.payload {
+                    PL::C(ks) => ks.iter().map(decode_req_ctl).collect::<Option<Vec<_>>>(),
+                    _ => None,
+                });
+                let base = child(op, 0).and_then(bytes_of).map(|b| String::from_utf8_lossy(b).to_string()).unwrap_or_default();
+                let q = base.strip_prefix("dc=q").unwrap_or("?").to_string();
+                let text = format!(
+                    "{}/o{}/q{}",
+                    match (&ctls, child(t, 2)) { (Some(cs), _) => list(cs.iter().map(rctl_text).collect()), (None, None) => String::from("none"), (None, Some(_)) => String::from("?") },
+                    decode_opts(op),
+                    q
+                );
+                self.obs.borrow_mut().reqs.push(WireReq { id, op: real_encode(op), text, ctls, fields: decode_fields(op) });
+                self.answer(id);
+            }
+            16 => {
+                let target = bytes_of(op).map(|b| twos(b)).unwrap_or(-1);
+                self.obs.borrow_mut().abandons.push(target);
+            }
+            n => self.obs.borrow_mut().other_msgs.push(format!("op{}", n)),
+        }
+    }
+
+    fn answer(&mut self, id: i64) {
+        let Some(Page::Script(l)) = self.pages.pop_front() else { return };
+        for r in l {
+            match r {
+                Recv::Item(i) => self.net.send(&envelope(id, item_op(&i), &i.ctls)),
+                Recv::Done(d) => self.net.send(&envelope(id, done_op(&d), &d.ctls)),
+                Recv::Closed => {
+                    self.net.close();
+                    self.obs.borrow_mut().closed_by_server = true;
+                    return;
+                }
+                Recv::Timeout => return,
+            }
+        }
+    }
+}
+
+async fn server_tick(server: &mut Server) {
+    for _ in 0..6 {
+        server.serve();
+        tokio::task::yield_now().await;
+    }
+    server.serve();
+    tokio::time::sleep(Duration::from_millis(1)).await;
+}
+
+/// drive `fut` while the server keeps answering; `None` = it did not complete within `limit_ms` of virtual time
+pub async fn with_server<F: Future>(server: &mut Server, fut: F, limit_ms: u64) -> Option<F::Output> {
+    tokio::pin!(fut);
+    let deadline = tokio::time::Instant::now() + Duration::from_millis(limit_ms);
+    loop {
+        tokio::select! {
+            biased;
+            r = &mut fut => return Some(r),
+            _ = server_tick(server) => {}
+        }
+        if tokio::time::Instant::now() >= deadline {
+            return None;
+        }
+    }
+}
+
+pub async fn settle(server: &mut Server) {
+    for _ in 0..4 {
+        server_tick(server).await;
+    }
+}
+
+pub type Strm = SearchStream<'static, &'static str, Vec<&'static str>>;
+pub type Adapters = Vec<Box<dyn Adapter<'static, &'static str, Vec<&'static str>>>>;
+
+pub fn adapters_of(chain: &[A]) -> Adapters {
+    chain
+        .iter()
+        .map(|a| -> Box<dyn Adapter<'static, &'static str, Vec<&'static str>>> {
+            match a {
+                A::E => Box::new(EntriesOnly::new()),
+                A::P(n) => Box::new(PagedResults::new(*n)),
+            }
+        })
+        .collect()
+}
+
+pub fn raw_ctl(c: &ReqCtl) -> RawControl {
+    match c {
+        ReqCtl::Other(t) => RawControl { ctype: format!("{}{}", OTHER_OID_PREFIX, t), crit: false, val: None },
+        ReqCtl::Paged(sz, ck) => RawControl { ctype: String::from(PR_OID), crit: false, val: Some(pr_value(*sz as i64, ck)) },
+    }
+}
+
+pub fn opts_of(tok: u64) -> SearchOptions {
+    let typesonly = tok % 2 == 1;
+    let deref = match (tok / 2) % 4 { 0 => DerefAliases::Never, 1 => DerefAliases::Searching, 2 => DerefAliases::Finding, _ => DerefAliases::Always };
+    let rest = tok / 8;
+    SearchOptions::new().deref(deref).typesonly(typesonly).sizelimit((rest / 100000) as i32).timelimit((rest % 100000) as i32)
+}
+
+pub fn apply_handle(ldap: &mut Ldap, h: &Handle) {
+    if let Some(cs) = &h.ctrls {
+        ldap.with_controls(cs.iter().map(raw_ctl).collect::<Vec<_>>());
+    }
+    if h.tmo {
+        ldap.with_timeout(Duration::from_millis(STREAM_TMO_MS));
+    }
+    if let Some(o) = h.opts {
+        ldap.with_search_options(opts_of(o));
+    }
+}
+
+pub fn limit_ms(h: &Handle) -> u64 {
+    if h.tmo { 3 * STREAM_TMO_MS } else { 60 }
+}
+
+pub const ATTRS: [&str; 2] = ["cn", "sn"];
+
+pub fn filter_of(ok: bool) -> &'static str {
+    if ok { "(objectClass=*)" } else { "(objectClass=*" }
+}
+
+/// what `run_in_rt` hands to the scenario body
+pub struct Ctx {
+    pub ldap: Ldap,
+    pub server: Server,
+    pub obs: Rc<RefCell<Obs>>,
+}
+
+/// Run `body` on a fresh connection (current-thread runtime, paused clock, driver spawned); panics
+/// are caught around the whole scenario; afterwards the ID table, the routing maps (last `drv maps`
+/// trace line) and the scrubs the driver processed are recorded.
+pub fn run_in_rt<B, Fut>(pages: &[Page], pre_closed: bool, body: B) -> Obs
+where
+    B: FnOnce(Ctx) -> Fut,
+    Fut: Future<Output = Ctx>,
+{
+    let obs: Rc<RefCell<Obs>> = Rc::new(RefCell::new(Obs::default()));
+    let obs2 = obs.clone();
+    let pages = pages.to_vec();
+    let _ = verif_take_trace();
+    let r = guarded(std::panic::AssertUnwindSafe(move || {
+        let rt = tokio::runtime::Builder::new_current_thread().enable_time().start_paused(true).build().unwrap();
+        rt.block_on(async move {
+            let (io, net) = simnet::pair();
+            let (conn, ldap) = LdapConnAsync::verif_pair(Box::new(io));
+            let drv = tokio::spawn(async move {
+                let _ = conn.drive().await;
+            });
+            let mut server = Server::new(net.clone(), &pages, obs2.clone());
+            if pre_closed {
+                net.close();
+                obs2.borrow_mut().closed_by_server = true;
+                settle(&mut server).await;
+            }
+            let ctx = body(Ctx { ldap, server, obs: obs2.clone() }).await;
+            let Ctx { ldap, mut server, .. } = ctx;
+            settle(&mut server).await;
+            let (_, used) = ldap.verif_msgmap();
+            let mut o = obs2.borrow_mut();
+            o.in_use = used;
+            o.driver_alive = !drv.is_finished();
+        })
+    }));
+    if let Err(e) = r {
+        obs.borrow_mut().panicked = Some(e);
+    }
+    let trace = verif_take_trace();
+    let mut o = obs.borrow_mut();
+    for t in &trace {
+        if let Some(m) = t.strip_prefix("drv maps ") {
+            o.last_maps = m.replace(", ", ",");
+        } else if let Some(id) = t.strip_prefix("drv scrub ") {
+            o.scrubs.push(id.parse().unwrap_or(-1));
+        }
+    }
+    drop(o);
+    let r = std::mem::take(&mut *obs.borrow_mut()); r
+}
+
+/// Run the scenario on the real code: `start` (via `streaming_search_with`) and then the calls.
+pub fn run_scenario(sc: &Scenario) -> Obs {
+    let sc2 = sc.clone();
+    let pre_closed = matches!(sc.pages.first(), Some(Page::Fail));
+    run_in_rt(&sc.pages, pre_closed, move |mut ctx: Ctx| async move {
+        let sc = sc2;
+        let lim = limit_ms(&sc.handle);
+        apply_handle(&mut ctx.ldap, &sc.handle);
+        let base: &'static str = Box::leak(format!("dc=q{}", sc.qtok).into_boxed_str());
+        let filter = filter_of(sc.filter_ok);
+        let started = with_server(&mut ctx.server, ctx.ldap.streaming_search_with(adapters_of(&sc.chain), base, Scope::Subtree, filter, ATTRS.to_vec()), lim).await;
+        let mut stream: Strm = match started {
+            None => {
+                ctx.obs.borrow_mut().outputs.push(String::from("pending"));
+                return ctx;
+            }
+            Some(Err(e)) => {
+                // the caller gets no stream: nothing more can be called
+                ctx.obs.borrow_mut().outputs.push(format!("err:{}", err_word(&e)));
+                return ctx;
+            }
+            Some(Ok(s)) => {
+                ctx.obs.borrow_mut().outputs.push(String::from("ok"));
+                s
+            }
+        };
+        for c in &sc.calls {
+            let txt = match c {
+                Call::Next => match with_server(&mut ctx.server, stream.next(), lim).await {
+                    None => String::from("pending"),
+                    Some(Ok(Some(re))) => format!("some:{}", client_item_text(&re)),
+                    Some(Ok(None)) => String::from("none"),
+                    Some(Err(e)) => format!("err:{}", err_word(&e)),
+                },
+                Call::Finish => match with_server(&mut ctx.server, stream.finish(), lim).await {
+                    None => String::from("pending"),
+                    Some(r) => format!("res:{}", client_res_text(&r)),
+                },
+                Call::State => String::from(state_word(stream.state())),
+                Call::Start => match with_server(&mut ctx.server, stream.start(base, Scope::Subtree, filter, ATTRS.to_vec()), lim).await {
+                    None => String::from("pending"),
+                    Some(Ok(())) => String::from("ok"),
+                    Some(Err(e)) => format!("err:{}", err_word(&e)),
+                },
+            };
+            let stuck = txt == "pending";
+            ctx.obs.borrow_mut().outputs.push(txt);
+            if stuck {
+                break;
+            }
+        }
+        drop(stream);
+        ctx
+    })
+}
+
+/// the answer the real code gave, in the form of the `stream.run` command
+pub fn real_answer(o: &Obs, obs: &str) -> String {
+    let mut outs = o.outputs.clone();
+    if o.panicked.is_some() {
+        outs.push(String::from("panic"));
+    }
+    let mut s = outs.join(";");
+    if obs == "rs" || obs == "r" {
+        s.push_str(&format!(" reqs={}", o.reqs.iter().map(|r| r.text.clone()).collect::<Vec<_>>().join("+")));
+    }
+    if obs == "rs" {
+        s.push_str(&format!(" scrubs={}", list(o.scrubs.iter().map(|i| i.to_string()).collect())));
+    }
+    s
+}
+
+/// a failed `start` leaves the caller without a stream: the model's run is cut after the start
+pub fn calls_after_start(sc: &Scenario, o: &Obs) -> Scenario {
+    let mut sc = sc.clone();
+    if o.outputs.first().map(|s| s != "ok").unwrap_or(true) {
+        sc.calls.clear();
+    }
+    sc
+}
+
+/* ---------- the reference cursor: C10 as worded, in Rust ---------- */
+
+#[derive(Clone, Debug, PartialEq)]
+pub enum Ending {
+    Done(Done),
+    Fail(&'static str),
+    Pending,
+    Panic,
+}
+
+pub struct RefView {
+    /// items presented, each with the referral URIs gained on the way to it
+    pub steps: Vec<(Vec<Vec<u8>>, Item)>,
+    pub end_gain: Vec<Vec<u8>>,
+    pub ending: Ending,
+}
+
+fn first_cookie(cs: &[RespCtl]) -> Option<Option<Vec<u8>>> {
+    cs.iter().find(|c| c.paged).map(|c| c.cookie.clone())
+}
+
+/// what the server sent for this stream, as the chain presents it (property text of C10 / C16)
+pub fn ref_view(chain: &[A], pages: &[Page]) -> RefView {
+    let paged = chain.iter().any(|a| matches!(a, A::P(_)));
+    let eo = chain.iter().any(|a| matches!(a, A::E));
+    // raw concatenation
+    let mut raw: Vec<Item> = vec![];
+    let mut ending = Ending::Pending;
+    let mut k = 0;
+    'pages: loop {
+        match pages.get(k) {
+            None => {
+                ending = Ending::Pending;
+                break;
+            }
+            Some(Page::Fail) => {
+                ending = Ending::Fail("op");
+                break;
+            }
+            Some(Page::Script(l)) => {
+                ending = Ending::Pending;
+                for r in l {
+                    match r {
+                        Recv::Item(i) => raw.push(i.clone()),
+                        Recv::Closed => {
+                            ending = Ending::Fail("eos");
+                            break 'pages;
+                        }
+                        Recv::Timeout => {
+                            ending = Ending::Fail("timeout");
+                            break 'pages;
+                        }
+                        Recv::Done(d) => {
+                            if paged {
+                                match first_cookie(&d.ctls) {
+                                    None => ending = Ending::Done(d.clone()),
+                                    Some(None) => ending = Ending::Panic,
+                                    Some(Some(ck)) if ck.is_empty() => {
+                                        let mut d2 = d.clone();
+                                        let ix = d2.ctls.iter().position(|c| c.paged).unwrap();
+                                        d2.ctls.remove(ix);
+                                        ending = Ending::Done(d2);
+                                    }
+                                    Some(Some(_)) => {
+                                        k += 1;
+                                        continue 'pages;
+                                    }
+                                }
+                            } else {
+                                ending = Ending::Done(d.clone());
+                            }
+                            break 'pages;
+                        }
+                    }
+                }
+                break;
+            }
+        }
+    }
+    if !eo {
+        return RefView { steps: raw.into_iter().map(|i| (vec![], i)).collect(), end_gain: vec![], ending };
+    }
+    let mut steps = vec![];
+    let mut gain: Vec<Vec<u8>> = vec![];
+    for i in raw {
+        match i.k {
+            K::E => steps.push((std::mem::take(&mut gain), i)),
+            K::I => {}
+            K::R => match &i.uris {
+                Some(us) => gain.extend(us.iter().cloned()),
+                None => return RefView { steps, end_gain: vec![], ending: Ending::Panic },
+            },
+        }
+    }
+    RefView { steps, end_gain: gain, ending }
+}
+
+pub fn item_out(i: &Item) -> String {
+    format!("{}{}/{}", match i.k { K::E => "e", K::R => "r", K::I => "i" }, i.tok, ctls_text(&i.ctls))
+}
+
+fn res_out(rc: u32, refs: &[Vec<u8>], ctls: &[RespCtl], text: &str) -> String {
+    format!("res:{}/{}/{}/{}", rc, hexlist(refs), ctls_text(ctls), text)
+}
+
+/// the outputs C10 prescribes for `start` + the calls (cut where the caller would be stuck)
+pub fn ref_outputs(v: &RefView, start_ok: Result<(), &'static str>, calls: &[Call]) -> Vec<String> {
+    let mut out = vec![];
+    let mut state = "fresh";
+    match start_ok {
+        Ok(()) => {
+            out.push(String::from("ok"));
+            state = "active";
+        }
+        Err(e) => {
+            out.push(format!("err:{}", e));
+            return out;
+        }
+    }
+    let mut pos = 0usize;
+    let mut acc: Vec<Vec<u8>> = vec![];
+    let mut fin: Option<Done> = None;
+    for c in calls {
+        match c {
+            Call::Start => out.push(String::from("ok")),
+            Call::State => out.push(String::from(state)),
+            Call::Next => {
+                if state != "active" {
+                    out.push(String::from("none"));
+                } else if let Some((g, it)) = v.steps.get(pos) {
+                    acc.extend(g.iter().cloned());
+                    pos += 1;
+                    out.push(format!("some:{}", item_out(it)));
+                } else {
+                    match &v.ending {
+                        Ending::Done(d) => {
+                            acc.extend(v.end_gain.iter().cloned());
+                            fin = Some(d.clone());
+                            state = "done";
+                            out.push(String::from("none"));
+                        }
+                        Ending::Fail(e) => {
+                            acc.extend(v.end_gain.iter().cloned());
+                            state = "error";
+                            out.push(format!("err:{}", e));
+                        }
+                        Ending::Pending => {
+                            out.push(String::from("pending"));
+                            return out;
+                        }
+                        Ending::Panic => {
+                            out.push(String::from("panic"));
+                            return out;
+                        }
+                    }
+                }
+            }
+            Call::Finish => {
+                if state == "closed" {
+                    out.push(res_out(80, &[], &[], "finalized"));
+                } else {
+                    state = "closed";
+                    match fin.take() {
+                        Some(d) => {
+                            let mut refs = d.refs.clone();
+                            refs.extend(acc.drain(..));
+                            out.push(res_out(d.rc, &refs, &d.ctls, &format!("t{}", d.tok)));
+                        }
+                        None => {
+                            let refs: Vec<Vec<u8>> = acc.drain(..).collect();
+                            out.push(res_out(88, &refs, &[], "cancelled"));
+                        }
+                    }
+                }
+            }
+        }
+    }
+    out
+}
+
+pub fn ref_start(sc: &Scenario) -> Result<(), &'static str> {
+    let paged = sc.chain.iter().any(|a| matches!(a, A::P(_)));
+    if paged && sc.handle.ctrls.as_ref().map(|cs| cs.iter().any(|c| matches!(c, ReqCtl::Paged(..)))).unwrap_or(false) {
+        Err("init")
+    } else if !sc.filter_ok {
+        Err("filter")
+    } else if matches!(sc.pages.first(), Some(Page::Fail)) {
+        Err("op")
+    } else {
+        Ok(())
+    }
+}
+
+/// is `a -> b` a step of Fresh → Active → Done → Closed, Error after a failure?
+fn legal_step(a: &str, b: &str) -> bool {
+    a == b
+        || matches!(
+            (a, b),
+            ("fresh", "active") | ("fresh", "error") | ("active", "done") | ("active", "error") | ("active", "closed") | ("done", "closed") | ("error", "closed")
+        )
+}
+
+/// The clauses of C10 on one scenario; returns (clause, ok, detail) for every clause.
+pub fn c10_clauses(sc: &Scenario, o: &Obs) -> Vec<(&'static str, bool, String)> {
+    let v = ref_view(&sc.chain, &sc.pages);
+    let expected = ref_outputs(&v, ref_start(sc), &sc.calls);
+    let mut real = o.outputs.clone();
+    if o.panicked.is_some() {
+        real.push(String::from("panic"));
+    }
+    let calls: Vec<Option<Call>> = std::iter::once(None).chain(sc.calls.iter().map(|c| Some(*c))).collect();
+    let mut items_ok = true;
+    let mut finish_ok = true;
+    let mut state_ok = true;
+    let mut d_items = String::new();
+    let mut d_finish = String::new();
+    let mut d_state = String::new();
+    let ctx = |i: usize| format!("call#{} of [{}]", i, calls_text(&sc.calls));
+    for (i, c) in calls.iter().enumerate() {
+        let e = expected.get(i);
+        let r = real.get(i);
+        if e.is_none() && r.is_none() {
+            break;
+        }
+        let same = e == r;
+        match c {
+            None | Some(Call::Next) | Some(Call::Start) => {
+                if !same && items_ok {
+                    items_ok = false;
+                    d_items = format!("{}: expected {:?}, real {:?}", ctx(i), e, r);
+                }
+            }
+            Some(Call::Finish) => {
+                if !same && finish_ok {
+                    finish_ok = false;
+                    d_finish = format!("{}: expected {:?}, real {:?}", ctx(i), e, r);
+                }
+            }
+            Some(Call::State) => {
+                if !same && state_ok {
+                    state_ok = false;
+                    d_state = format!("{}: expected {:?}, real {:?}", ctx(i), e, r);
+                }
+            }
+        }
+    }
+    // trajectory over the observed states
+    let mut prev = String::from("active");
+    for (i, c) in calls.iter().enumerate() {
+        if let (Some(Call::State), Some(s)) = (c, real.get(i)) {
+            if !legal_step(&prev, s) && state_ok {
+                state_ok = false;
+                d_state = format!("{}: {} after {}", ctx(i), s, prev);
+            }
+            prev = s.clone();
+        }
+    }
+    let expects_panic = expected.last().map(|s| s == "panic").unwrap_or(false);
+    let no_panic = o.panicked.is_none() || expects_panic;
+    let tail = format!("chain={} pages={}", chain_text(&sc.chain), pages_text(&sc.pages));
+    vec![
+        ("items-in-order-then-none", items_ok, format!("{} ; {}", d_items, tail)),
+        ("finish-result", finish_ok, format!("{} ; {}", d_finish, tail)),
+        ("state-trajectory", state_ok, format!("{} ; {}", d_state, tail)),
+        ("no-panic", no_panic, format!("{:?} ; calls [{}] ; {}", o.panicked, calls_text(&sc.calls), tail)),
+    ]
+}
+
+/// one scenario: M line + R lines (one `ok` line, or one FAIL line per failing clause)
+pub fn check_scenario(out: &mut Out, lane: &str, sc: &Scenario, strict_clauses: bool) -> Obs {
+    let o = run_scenario(sc);
+    let obs = if o.closed_by_server || !o.driver_alive { "r" } else { "rs" };
+    let scm = calls_after_start(sc, &o);
+    let req = scenario_request(&scm, obs);
+    out.m(&req, &real_answer(&o, obs));
+    if strict_clauses {
+        let clauses = c10_clauses(&scm, &o);
+        if clauses.iter().all(|c| c.1) {
+            out.r(&format!("{}.c10-clauses chain={}", lane, chain_text(&sc.chain)), true, "");
+        } else {
+            for (name, ok, detail) in clauses {
+                if !ok {
+                    out.r(&format!("{}.{} chain={}", lane, name, chain_text(&sc.chain)), false, &detail);
+                }
+            }
+        }
+    }
+    o
+}
+
+/* ---------- generators ---------- */
+
+pub struct Toks(pub u64);
+
+impl Toks {
+    pub fn next(&mut self) -> u64 {
+        self.0 += 1;
+        self.0
+    }
+}
+
+pub fn mk_item(k: K, toks: &mut Toks, ctls: Vec<RespCtl>) -> Item {
+    let tok = toks.next();
+    let uris = if k == K::R { Some(ref_uris(tok, (tok % 3) as usize)) } else { Some(vec![]) };
+    Item { k, tok, uris, ctls }
+}
+
+pub fn gen_ctls(rng: &mut Rng, toks: &mut Toks) -> Vec<RespCtl> {
+    (0..rng.below(3)).map(|_| RespCtl { paged: false, cookie: None, tok: toks.next() }).collect()
+}
+
+pub fn all_seqs<T: Clone>(alpha: &[T], max_len: usize) -> Vec<Vec<T>> {
+    let mut res: Vec<Vec<T>> = vec![vec![]];
+    let mut layer: Vec<Vec<T>> = vec![vec![]];
+    for _ in 0..max_len {
+        let mut next = vec![];
+        for s in &layer {
+            for a in alpha {
+                let mut t = s.clone();
+                t.push(a.clone());
+                next.push(t);
+            }
+        }
+        res.extend(next.iter().cloned());
+        layer = next;
+    }
+    res
+}
+
+fn search_case(out: &mut Out, h: &Handle, pages: &[Page], label: &str) {
+    // `Ldap::search` on the real code
+    let pre_closed = matches!(pages.first(), Some(Page::Fail));
+    let h2 = h.clone();
+    let o = run_in_rt(pages, pre_closed, move |mut ctx: Ctx| async move {
+        apply_handle(&mut ctx.ldap, &h2);
+        let lim = limit_ms(&h2);
+        let r = with_server(&mut ctx.server, ctx.ldap.search("dc=q1", Scope::Subtree, filter_of(true), ATTRS.to_vec()), lim).await;
+        let txt = match r {
+            None => String::from("pending"),
+            Some(Err(e)) => format!("err:{}", err_word(&e)),
+            Some(Ok(sr)) => format!("ok:{}:{}", list(sr.0.iter().map(client_item_text).collect()), client_res_text(&sr.1)),
+        };
+        ctx.obs.borrow_mut().outputs.push(txt);
+        ctx
+    });
+    let real = if o.panicked.is_some() { String::from("panic") } else { o.outputs.first().cloned().unwrap_or_default() };
+    out.m(&format!("search.run {} q1:1 {}", handle_text(h), pages_text(pages)), &real);
+    // C10, last sentence: exactly the directory entries in order, reference URIs merged into the
+    // result's referral list, intermediate messages dropped
+    let v = ref_view(&[A::E], pages);
+    let expected = match &v.ending {
+        Ending::Done(d) => {
+            let mut refs = d.refs.clone();
+            for (g, _) in &v.steps {
+                refs.extend(g.iter().cloned());
+            }
+            refs.extend(v.end_gain.iter().cloned());
+            format!("ok:{}:{}", list(v.steps.iter().map(|(_, i)| item_out(i)).collect()), &res_out(d.rc, &refs, &d.ctls, &format!("t{}", d.tok))[4..])
+        }
+        Ending::Fail(e) => format!("err:{}", e),
+        Ending::Pending => String::from("pending"),
+        Ending::Panic => String::from("panic"),
+    };
+    out.r(&format!("streams.search-entries-refs-merged {}", label), real == expected, &format!("expected {} real {} ; pages={}", expected, real, pages_text(pages)));
+    // the referral list on its own, straight from the script: the Done's own referrals first, then
+    // the URIs of the reference messages in the order they were sent
+    if let Some((done_refs, msg_uris)) = script_refs(pages) {
+        let mut want = done_refs.clone();
+        want.extend(msg_uris.iter().cloned());
+        let got = real.split(':').nth(2).and_then(|r| r.split('/').nth(1)).unwrap_or("?").to_string();
+        out.r(
+            &format!("streams.search-refs-merged done_refs={} ref_uris={} {}", done_refs.len(), msg_uris.len(), label),
+            got == hexlist(&want),
+            &format!("result refs {} expected {} (done's {} then the reference messages' {}) ; pages={}", got, hexlist(&want), hexlist(&done_refs), hexlist(&msg_uris), pages_text(pages)),
+        );
+    }
+}
+
+/// (referrals of the SearchResultDone, URIs of the reference messages before it) of a first page
+/// that ends in Done and has only well-formed references
+pub fn script_refs(pages: &[Page]) -> Option<(Vec<Vec<u8>>, Vec<Vec<u8>>)> {
+    let Some(Page::Script(l)) = pages.first() else { return None };
+    let mut uris = vec![];
+    for r in l {
+        match r {
+            Recv::Item(i) if i.k == K::R => uris.extend(i.uris.clone()?),
+            Recv::Item(_) => {}
+            Recv::Done(d) => return Some((d.refs.clone(), uris)),
+            _ => return None,
+        }
+    }
+    None
+}
+
+pub fn run(thorough: bool, mut rng: Rng, mut out: Out) {
+    let mut toks = Toks(100);
+    let calls_alpha = [Call::Next, Call::Finish, Call::State];
+    let kinds = [K::E, K::R, K::I];
+    let call_seqs = all_seqs(&calls_alpha, if thorough { 6 } else { 5 });
+    let item_seqs = all_seqs(&kinds, if thorough { 4 } else { 3 });
+    let rcs = [0u32, 4, 10, 32];
+    // 1. exhaustive: calls × item kinds × {direct, EntriesOnly} × rc (full product, both tiers)
+    for chain in [vec![], vec![A::E]] {
+        for items in &item_seqs {
+            for calls in &call_seqs {
+                for rc in rcs {
+                    let mut script: Vec<Recv> = items.iter().map(|k| Recv::Item(mk_item(k.clone(), &mut toks, vec![]))).collect();
+                    let refs = if rc == 10 { vec![b"ldap://other/".to_vec()] } else { vec![] };
+                    script.push(Recv::Done(Done { rc, refs, ctls: vec![], tok: toks.next() }));
+                    let sc = Scenario { chain: chain.clone(), handle: Handle::default(), qtok: 1, filter_ok: true, pages: vec![Page::Script(script)], calls: calls.clone() };
+                    let o = check_scenario(&mut out, "streams", &sc, true);
+                    out.case(&format!("{}|{:?}|{}|{}", chain_text(&chain), items, calls_text(calls), rc), !calls.is_empty());
+                    out.stat("exhaustive");
+                    if o.panicked.is_some() {
+                        out.stat("panicked");
+                    }
+                }
+            }
+        }
+    }
+    // 2. random longer scripts: per-item controls, result controls and referrals, endings
+    //    Done / disconnect / time-out / silence, longer call sequences, explicit start(), filter errors
+    let n = if thorough { 20000 } else { 2500 };
+    for k in 0..n {
+        let chain = if rng.chance(1, 2) { vec![] } else { vec![A::E] };
+        let n_items = rng.below(9) as usize;
+        let mut script: Vec<Recv> = vec![];
+        for _ in 0..n_items {
+            let kind = rng.pick(&[K::E, K::E, K::R, K::I]).clone();
+            let ctls = if rng.chance(1, 3) { gen_ctls(&mut rng, &mut toks) } else { vec![] };
+            let mut it = mk_item(kind, &mut toks, ctls);
+            if it.k == K::R && k % 50 == 49 && rng.chance(1, 3) {
+                it.uris = None; // malformed reference: EntriesOnly panics in parse_refs (caller side)
+            }
+            script.push(Recv::Item(it));
+        }
+        let ending = rng.below(10);
+        let mut h = Handle::default();
+        match ending {
+            0..=5 => {
+                let mut ctls = if rng.chance(1, 2) { gen_ctls(&mut rng, &mut toks) } else { vec![] };
+                if rng.chance(1, 6) {
+                    // a paging control in the result of an unpaged search is handed on untouched
+                    let ck = if rng.chance(1, 2) { vec![] } else { rng.bytes(3) };
+                    let pos = rng.below(ctls.len() as u64 + 1) as usize;
+                    ctls.insert(pos, RespCtl { paged: true, cookie: Some(ck), tok: rng.below(100) });
+                }
+                let rc = *rng.pick(&[0u32, 0, 4, 10, 32, 3, 11, 53, 80, 88]);
+                let refs = if rc == 10 || rng.chance(1, 8) { (0..rng.range(1, 2)).map(|j| format!("ldap://res{}/", j).into_bytes()).collect() } else { vec![] };
+                script.push(Recv::Done(Done { rc, refs, ctls, tok: toks.next() }));
+                if rng.chance(1, 8) {
+                    script.push(Recv::Closed);
+                }
+            }
+            6 | 7 => script.push(Recv::Closed),
+            8 => {
+                script.push(Recv::Timeout);
+                h.tmo = true;
+            }
+            _ => {} // silence without a time-out: the caller waits forever
+        }
+        if ending <= 7 && rng.chance(1, 5) {
+            h.tmo = true;
+        }
+        let n_calls = rng.range(0, 14) as usize;
+        let calls: Vec<Call> = (0..n_calls).map(|_| *rng.pick(&[Call::Next, Call::Next, Call::Next, Call::Finish, Call::State, Call::State, Call::Start])).collect();
+        let filter_ok = !rng.chance(1, 40);
+        let pages = if rng.chance(1, 40) { vec![Page::Fail] } else { vec![Page::Script(script)] };
+        if rng.chance(1, 3) {
+            h.ctrls = Some((0..rng.below(3)).map(|_| ReqCtl::Other(rng.range(1, 500))).collect());
+        }
+        if rng.chance(1, 3) {
+            h.opts = Some(rng.range(1, 1000));
+        }
+        let sc = Scenario { chain, handle: h, qtok: rng.range(1, 9), filter_ok, pages, calls };
+        check_scenario(&mut out, "streams", &sc, true);
+        out.case(&scenario_request(&sc, "-"), n_items + n_calls >= 2);
+        out.stat(&format!("random.ending={}", match ending { 0..=5 => "done", 6 | 7 => "closed", 8 => "timeout", _ => "silence" }));
+    }
+    // 3. adapted streams with the paging adapter under the same C10 clauses (the detailed paging
+    //    checks are lane `paged`): two or three pages, finish() before the end on every page
+    let mut paged_cases = 0;
+    for chain in [vec![A::P(2)], vec![A::E, A::P(2)], vec![A::P(2), A::E]] {
+        for n_pages in [1usize, 2, 3] {
+            for calls in all_seqs(&calls_alpha, if thorough { 5 } else { 4 }) {
+                if !thorough && paged_cases % 3 != 0 && calls.len() == 4 {
+                    paged_cases += 1;
+                    continue;
+                }
+                paged_cases += 1;
+                let mut pages = vec![];
+                for p in 0..n_pages {
+                    let mut script: Vec<Recv> = vec![Recv::Item(mk_item(K::E, &mut toks, vec![]))];
+                    if p == 0 {
+                        script.push(Recv::Item(mk_item(K::R, &mut toks, vec![])));
+                    }
+                    let cookie = if p + 1 == n_pages { vec![] } else { vec![p as u8 + 1] };
+                    script.push(Recv::Done(Done { rc: 0, refs: vec![], ctls: vec![RespCtl { paged: true, cookie: Some(cookie), tok: 9 }], tok: toks.next() }));
+                    pages.push(Page::Script(script));
+                }
+                let sc = Scenario { chain: chain.clone(), handle: Handle::default(), qtok: 1, filter_ok: true, pages, calls: calls.clone() };
+                check_scenario(&mut out, "streams", &sc, true);
+                out.case(&format!("paged|{}|{}|{}", chain_text(&chain), n_pages, calls_text(&calls)), true);
+                out.stat("adapted-paged");
+            }
+        }
+    }
+    // 4. Ldap::search
+    let n = if thorough { 4000 } else { 600 };
+    for k in 0..n {
+        let n_items = rng.below(10) as usize;
+        let mut script: Vec<Recv> = vec![];
+        for _ in 0..n_items {
+            let kind = rng.pick(&[K::E, K::E, K::R, K::I]).clone();
+            let ctls = if rng.chance(1, 4) { gen_ctls(&mut rng, &mut toks) } else { vec![] };
+            let mut it = mk_item(kind, &mut toks, ctls);
+            if it.k == K::R && k % 60 == 59 {
+                it.uris = None;
+            }
+            script.push(Recv::Item(it));
+        }
+        let mut h = Handle::default();
+        match rng.below(10) {
+            0 => script.push(Recv::Closed),
+            1 => {
+                script.push(Recv::Timeout);
+                h.tmo = true;
+            }
+            2 => {}
+            _ => {
+                let rc = *rng.pick(&[0u32, 0, 4, 10, 32]);
+                let refs = if rc == 10 || rng.chance(1, 5) { vec![b"ldap://res/".to_vec()] } else { vec![] };
+                let ctls = if rng.chance(1, 3) { gen_ctls(&mut rng, &mut toks) } else { vec![] };
+                script.push(Recv::Done(Done { rc, refs, ctls, tok: toks.next() }));
+            }
+        }
+        let pages = if rng.chance(1, 50) { vec![Page::Fail] } else { vec![Page::Script(script)] };
+        search_case(&mut out, &h, &pages, &format!("case#{}", k));
+        out.case(&format!("search|{}", pages_text(&pages)), n_items >= 1);
+        out.stat("search");
+    }
+    // 5. referrals from both sources: the SearchResultDone carries 0..3 referral URIs (rc 10 and rc 0)
+    //    and 0..2 reference messages (1..3 URIs each) occur among the entries: search() and
+    //    EntriesOnly::finish() must report done.refs ++ reference URIs, in that order
+    let mut k5 = 0;
+    for rc in [0u32, 10] {
+        for n_done in 0..=3usize {
+            for n_msgs in 0..=2usize {
+                for layout in 0..(if thorough { 6 } else { 3 }) {
+                    let mut script: Vec<Recv> = vec![];
+                    let mut msgs_left = n_msgs;
+                    let n_entries = 1 + layout % 3;
+                    for e in 0..n_entries {
+                        if msgs_left > 0 && (layout + e) % 2 == 0 {
+                            let mut it = mk_item(K::R, &mut toks, vec![]);
+                            it.uris = Some(ref_uris(it.tok, (layout + msgs_left) % 3));
+                            script.push(Recv::Item(it));
+                            msgs_left -= 1;
+                        }
+                        script.push(Recv::Item(mk_item(K::E, &mut toks, vec![])));
+                        if layout % 2 == 1 {
+                            script.push(Recv::Item(mk_item(K::I, &mut toks, vec![])));
+                        }
+                    }
+                    while msgs_left > 0 {
+                        let mut it = mk_item(K::R, &mut toks, vec![]);
+                        it.uris = Some(ref_uris(it.tok, msgs_left % 3));
+                        script.push(Recv::Item(it));
+                        msgs_left -= 1;
+                    }
+                    let refs: Vec<Vec<u8>> = (0..n_done).map(|j| format!("ldap://done{}-{}/", k5, j).into_bytes()).collect();
+                    script.push(Recv::Done(Done { rc, refs: refs.clone(), ctls: vec![], tok: toks.next() }));
+                    let pages = vec![Page::Script(script.clone())];
+                    search_case(&mut out, &Handle::default(), &pages, &format!("rc={} msgs={} layout#{}", rc, n_msgs, layout));
+                    out.case(&format!("search-refs|{}", pages_text(&pages)), true);
+                    out.stat("search-refs-both-sources");
+                    // the same through a stream behind EntriesOnly, read to the end and finished
+                    let n_next = script.iter().filter(|r| matches!(r, Recv::Item(i) if i.k == K::E)).count() + 1;
+                    let mut calls = vec![Call::Next; n_next];
+                    calls.push(Call::Finish);
+                    let sc = Scenario { chain: vec![A::E], handle: Handle::default(), qtok: 1, filter_ok: true, pages: pages.clone(), calls };
+                    let o = check_scenario(&mut out, "streams", &sc, true);
+                    let (done_refs, msg_uris) = script_refs(&pages).unwrap();
+                    let mut want = done_refs.clone();
+                    want.extend(msg_uris.iter().cloned());
+                    let got = o.outputs.last().and_then(|r| r.split('/').nth(1)).unwrap_or("?").to_string();
+                    out.r(
+                        &format!("streams.finish-refs-merged done_refs={} ref_uris={} rc={}", done_refs.len(), msg_uris.len(), rc),
+                        got == hexlist(&want),
+                        &format!("finish() refs {} expected {} ; pages={}", got, hexlist(&want), pages_text(&pages)),
+                    );
+                    k5 += 1;
+                }
+            }
+        }
+    }
+    out.finish("real SearchStream/Ldap::search on the scripted transport against a scripted server: (1) every call sequence over {next, finish, state} up to length 5 (6 thorough) x every item-kind sequence over {entry, reference, intermediate} up to length 3 (4) x {direct, EntriesOnly}, x result code {0,4,10,32} (full product); (2) random scripts of 0..8 items with per-item controls, result controls/referrals, endings Done / disconnect / time-out / silence, 0..14 calls incl. start(), filter errors, failed submission; (3) paging adapter in three chain orders, 1..3 pages, all call sequences up to length 4 (5) (length-4 ones: every third when quick); (4) Ldap::search on random scripts; (5) referrals in the SearchResultDone (0..3, rc 0 and 10) together with 0..2 reference messages, through Ldap::search and through EntriesOnly + finish(). non-trivial = at least one call (1), items+calls >= 2 (2), always (3), at least one item (4); distinct by FNV of the canonical scenario");
 }
